@@ -50,7 +50,15 @@ func c13Repr(n any) string {
 	case int:
 		return strconv.Itoa(v)
 	case *c13StructNode: // a pointer to a non-Stringer struct is represented by the struct it points to
+		if v == nil {
+			return "<nil>" // a typed nil pointer is a key like any other
+		}
 		return fmt.Sprint(*v)
+	case *int:
+		if v == nil {
+			return "<nil>"
+		}
+		return strconv.Itoa(*v)
 	case float64:
 		return strconv.FormatFloat(v, 'f', -1, 64)
 	case []byte:
@@ -134,7 +142,9 @@ func c13TypedKeys(seed int64) []any {
 		)
 	}
 	// keys whose representation is the empty string are keys like any other
-	return append(ks, true, false, "", nil, []byte{}, &c13StringerNode{name: "\x00empty"})
+	seven := 7
+	return append(ks, true, false, "", nil, []byte{}, &c13StringerNode{name: "\x00empty"},
+		(*int)(nil), (*c13StructNode)(nil), &seven) // typed nil pointers and a pointer to a scalar
 }
 
 func c13MakeNodes(r interface{ Intn(int) int }, n int, salt int) []any {
